@@ -97,7 +97,9 @@ class BaseFiles(Generic[Interface]):
             if not if_modified_since:
                 raise ValueError("Empty date value")
             modified_time = parsedate_to_datetime(if_modified_since).timestamp()
-        except ValueError:
+        except (TypeError, ValueError, OverflowError):
+            # TypeError: an unparsable date before Python 3.10;
+            # OverflowError: a zone offset too large for a timedelta
             return False
 
         return int(last_modified) <= int(modified_time)
